@@ -39,6 +39,7 @@ ENGINES = [
          kind_free_text='stateless preemption-bounded exploration of real threads: own TSan-ABI runtime (compiler-reported accesses), interposed pthread/guard/malloc, cooperative scheduler, fork per schedule, vector-clock race detector'),
 ]
 MANIFEST_NOTES = ('All checks execute the real implementation compiled from /repo working tree; no separate formal model, so every explored trace is an implementation trace. '
+                  'Deciding step everywhere: exhaustive enumeration inside stated bounds (object states, whole inputs, operation histories, thread schedules); VERIF_SEED only selects the samples copied into the evidence. '
                   'Driver: bin/check <id> --tier quick|thorough. Known/fixed findings: known_findings.json. Seeded breakage used to validate detection: seeded/*/meta.json.')
 # properties without a registered check AT THIS COMMIT (each gets removed from this list by the commit that adds its check)
 _PENDING = 'no check registered at this commit: the harness for this property is still being built (design in DESIGN.md section 4); nothing is claimed for it yet'
@@ -218,7 +219,7 @@ CHECKS['C16'] = dict(title='Every delivered log message is rendered exactly as i
     assumptions=['the automatic separator is placed between any two items, constant text included (as the in-tree creator test documents)', 'message-own attribute values are non-empty (an empty own value falls through to the global one by design)'])
 
 _SCHED = dict(engine='xsched', flags='tsanabi', level='model_checking', extra_sources=[dict(src='engine/sched/xsched.cpp', flags='rt')], extra_ldflags=['-ldl'], hang_s=120,
-    technique='stateless model checking of the real threads: cooperative scheduler over compiler-reported accesses (own TSan-ABI runtime), all schedules up to a preemption bound by depth-first re-execution in fresh processes, vector-clock data-race detection on every explored schedule')
+    technique='stateless model checking of the real threads: cooperative scheduler over compiler-reported accesses (own TSan-ABI runtime), all schedules up to a preemption bound by depth-first re-execution in fresh processes, vector-clock data-race detection on every explored schedule; the detector is cross-checked by a free-running pass of the same bodies under the real ThreadSanitizer')
 CHECKS['C20'] = dict(_SCHED, title='Concurrency helpers keep their contract under every schedule', harness=['harness/c20_helpers.cpp'], lib=False,
     also_build=[dict(name='free', build_id='C20free', harness=['harness/c20_helpers.cpp'], flags='tsan', lib=False)], deadline={'quick': 240, 'thorough': 2400},
     level_text='5 scenarios (2 and 3 threads racing for the first Singleton access, one thread accessing twice; ManagedThread sampled by its creator and by a third thread): every schedule with <= 2-3 (quick) / 3-5 (thorough) preemptions is executed on the real code in a fresh process; per schedule: constructed once, same object, active while provably running, inactive after join, no data race, no deadlock',
